@@ -81,8 +81,11 @@ func (t *Table) GetAll() []LinkService {
 
 // Remove removes a face from the face table.
 func (t *Table) Remove(id uint64) {
+	table.VerifYieldPoint("facetable.remove")
 	t.faces.Delete(id)
+	table.VerifYieldPoint("facetable.remove.dispatch")
 	dispatch.RemoveFace(id)
+	table.VerifYieldPoint("facetable.remove.rib")
 	table.Rib.CleanUpFace(id)
 	core.LogInfo(t, "Unregistered FaceID=", id)
 }
